@@ -189,7 +189,8 @@ func main() {
 				isGlobal := func(id *ast.Ident) bool {
 					obj := p.TypesInfo.Uses[id]
 					v, ok := obj.(*types.Var)
-					return ok && v.Pkg() == p.Types && v.Parent() == scope
+					// a package-level variable of any package of this module (own or imported)
+					return ok && v.Pkg() != nil && v.Parent() == v.Pkg().Scope() && (v.Pkg() == p.Types || strings.HasPrefix(v.Pkg().Path(), modPath))
 				}
 				var visitBlock func(list []ast.Stmt)
 				mentions := func(s ast.Stmt) bool {
